@@ -242,3 +242,30 @@ CHECKS["C18"] = {
     "note": "Interleaving control only at synchronisation points; no hardware memory-model effects. Needs the verif-hook "
             "commits. Trusted: TLC, harness/thr_driver.cpp (scheduler), vm backend, g++ 12.",
 }
+
+CHECKS["C16"] = {
+    "technique": "TLA+ Contract (Ops: OpAllowed / OpSumAllowed / UpdAllowed incl. the OperandUpdate rule with the permitted "
+                 "abort of sandbox-memory targets) evaluated by TLC on wrapped-vs-plain evaluations recorded in one "
+                 "translation unit; exhaustive 8-bit operand pairs",
+    "text": "Every binary arithmetic/bitwise/shift/comparison operator is evaluated for every operand-wrapper combination "
+            "(tainted, tainted_volatile, plain on either side) on all 8-bit operand pairs with defined behaviour (~30 "
+            "million evaluations, summarised per combination with disagreeing pairs logged) and on 15-22 wider type pairs at "
+            "boundary/random values; compound assignments, ++/-- pre/post and unary - ~ are evaluated on tainted and "
+            "tainted_volatile targets; each wrapped result is compared with the plain C++ expression evaluated next to it "
+            "(value bits, C++ result type, operand afterwards, returned value) and TLC checks the relation, allowing an "
+            "abort only for a sandbox-memory target whose new value does not fit the stored sandbox type.",
+    "note": "Reference semantics come from the same compiler (g++ 12) evaluating the plain expression. Forms that do not "
+            "compile are C01's. Trusted: TLC, harness/op_driver.cpp, vm backend.",
+}
+CHECKS["C20"] = {
+    "technique": "TLA+ Contract (Casts: OpaqueAllowed / CastAllowed / BoundaryAllowed) evaluated by TLC on sandbox casts and "
+                 "opaque round trips recorded next to the plain C++ casts",
+    "text": "to_opaque/from_opaque round trips (object representation and value) for primitive, pointer, array and struct "
+            "types; opaque versus tainted values as callback results and invocation arguments observed on the guest side "
+            "(incl. values that must abort); sandbox_static_cast / sandbox_reinterpret_cast / sandbox_const_cast on tainted "
+            "and tainted_volatile sources for 31 accepted (source, target) pairs with boundary/random values and "
+            "null/first/interior/last pointers, compared with the plain cast evaluated in the same translation unit; for "
+            "pointers the designated sandbox offset must be unchanged.",
+    "note": "Hand-listed pair family; values sampled. Trusted: TLC, harness/cast_driver.cpp, vm backend (mask-based example "
+            "translation, so a wrong example address is visible), g++ 12.",
+}
